@@ -560,4 +560,186 @@ def decodeData (k : Sc) (n : Nat) (rem : List Byte) : Option (List Val × List B
 the clamped `load(&*ret.begin(), size)` -/
 def loadsS (rem : List Byte) (size : Nat) : Option (List Byte × List Byte) := loadS rem size
 
+/-! ### extension 2: the archive reader AFTER `fix: binary_buffer_reader never reads beyond _end`
+
+`decodeA` above is the reader as it was (no comparison with `_end`: `none` = a read
+past the input); it stays as the strict reference reader.  The code now is `decodeB`. -/
+
+/-- `binary_buffer_reader::load_data(char *dat, uint16_t size)` after the fix:
+`avail = _end - ptr; len = size < avail ? size : avail; memcpy(dat, ptr, len);
+memset(dat + len, 0, size - len); ptr += len;` — the clamp of the storage reader -/
+def loadDataB (rem : List Byte) (sz : Nat) : Option (List Byte × List Byte) := loadS rem (u16 sz)
+
+/-- `skip(int size)` after the fix: `if (size > _end - ptr) size = _end - ptr; ptr += size;` -/
+def skipB (rem : List Byte) (n : Nat) : List Byte := rem.drop n
+
+def loadScalarB (k : Sc) (rem : List Byte) : Option (Nat × List Byte) :=
+  match loadDataB rem k.width with
+  | some (bs, r) => some (leVal bs, r)
+  | none => none
+
+/-- std::string: `deserialize(keeper, size); str.resize(size); keeper.load_data(str.data(), str.size())` -/
+def loadStringB (rem : List Byte) : Option (List Byte × List Byte) :=
+  match loadScalarB .u16 rem with
+  | none => none
+  | some (n, r) => loadDataB r n
+
+/-- `load(settable_buffer&)` after the fix: `load(len); if (len > end() - pointer()) len = end() - pointer();
+buf.ref = buffer(pointer(), len); skip(len);` — a zero-copy view cannot be zero-filled, it is cut -/
+def loadViewB (rem : List Byte) : Option (List Byte × List Byte) :=
+  match loadScalarB .u16 rem with
+  | none => none
+  | some (n, r) => some (r.take (u16 n), skipB r (u16 n))   -- `len` is a `uint16_t`
+
+mutual
+/-- `igris::deserialize(keeper, obj)` over the bounded `binary_buffer_reader` -/
+def decodeB : Ty → List Byte → Option (Val × List Byte)
+  | .sc k, rem =>
+    match loadScalarB k rem with
+    | some (n, r) => some (.sc n, r)
+    | none => none
+  | .str, rem =>
+    match loadStringB rem with
+    | some (bs, r) => some (.bytes bs, r)
+    | none => none
+  | .buf, rem =>
+    match loadViewB rem with
+    | some (bs, r) => some (.bytes bs, r)
+    | none => none
+  | .vec t, rem =>
+    match loadScalarB .u16 rem with
+    | none => none
+    | some (n, r) =>
+      match repeatN (decodeB t) n r with
+      | some (xs, r2) => some (.list xs, r2)
+      | none => none
+  | .pair a b, rem =>
+    match decodeB a rem with
+    | none => none
+    | some (x, r) =>
+      match decodeB b r with
+      | some (y, r2) => some (.list [x, y], r2)
+      | none => none
+  | .tuple ts, rem =>
+    match decodeFieldsB ts rem with
+    | some (xs, r) => some (.list xs, r)
+    | none => none
+  | .map k t, rem =>
+    match loadScalarB .u16 rem with
+    | none => none
+    | some (n, r) =>
+      match repeatN (fun rem =>
+          match decodeB k rem with
+          | none => none
+          | some (x, r) =>
+            match decodeB t r with
+            | some (y, r2) => some (Val.list [x, y], r2)
+            | none => none) n r with
+      | some (kvs, r2) => some (.list (mapFromList k kvs), r2)
+      | none => none
+  | .struct fs, rem =>
+    match decodeFieldsB fs rem with
+    | some (xs, r) => some (.list xs, r)
+    | none => none
+def decodeFieldsB : List Ty → List Byte → Option (List Val × List Byte)
+  | [], rem => some ([], rem)
+  | t :: ts, rem =>
+    match decodeB t rem with
+    | none => none
+    | some (x, r) =>
+      match decodeFieldsB ts r with
+      | some (xs, r2) => some (x :: xs, r2)
+      | none => none
+end
+
+/-- `load(char *dat, uint16_t maxsz)` over the bounded reader (`dat` zero-initialised by the caller) -/
+def loadCharArrB (rem : List Byte) (maxsz : Nat) : Option (List Byte × List Byte) :=
+  match loadScalarB .u16 rem with
+  | none => none
+  | some (sz, r) =>
+    let readsize := if u16 maxsz < sz then u16 maxsz else sz
+    match loadDataB r readsize with
+    | none => none
+    | some (bs, r2) => some (bs, skipB r2 (sz - readsize))
+
+/-- `load(writable_buffer &buf)` over the bounded reader -/
+def loadWritableB (rem : List Byte) (cap : Nat) : Option (List Byte × List Byte) :=
+  match loadScalarB .u16 rem with
+  | none => none
+  | some (len, r) =>
+    let readsize := if cap < len then cap else len
+    match loadDataB r readsize with
+    | none => none
+    | some (bs, r2) => some (bs, skipB r2 (len - readsize))
+
+/-- `archive::data<T>{ptr, n}.reflect(r)` over the bounded reader -/
+def decodeDataB (k : Sc) (n : Nat) (rem : List Byte) : Option (List Val × List Byte) :=
+  match loadDataB rem (n * k.width) with
+  | none => none
+  | some (bs, r) => some (chunks k.width n (bs ++ List.replicate (n * k.width - bs.length) 0#8), r)
+
+/-! ### extension 2: the storage reader with its cursor, exactly as the code has it -/
+
+/-- `deserialize_buffer_storage`: the buffer it was constructed over and `size_t cursor` -/
+structure Store where
+  data : List Byte
+  cursor : Nat
+
+/-- subtraction of two `size_t` (wraps modulo 2^64) -/
+def subSize (a b : Nat) : Nat := (a % 2 ^ 64 + (2 ^ 64 - b % 2 ^ 64)) % 2 ^ 64
+
+/-- `deserialize_buffer_storage::load(char *data, size_t size)` into a value-initialised object:
+`auto len = MIN(size, _storage.size() - cursor);` (size_t arithmetic: wraps when cursor > size)
+`memcpy(data, _storage.data() + cursor, len);` (reads `[cursor, cursor+len)`: `none` when that leaves the buffer)
+`cursor += len;` -/
+def Store.load (s : Store) (size : Nat) : Option (List Byte × Store) :=
+  let len := min size (subSize s.data.length s.cursor)
+  match readN len (s.data.drop s.cursor) with
+  | some (bs, _) => some (bs ++ List.replicate (size - len) 0#8, { s with cursor := (s.cursor + len) % 2 ^ 64 })
+  | none => none
+
+/-- `avail()` as a `size_t` (the code returns it as `int`) -/
+def Store.avail (s : Store) : Nat := subSize s.data.length s.cursor
+
+/-- the element loops over a store -/
+def repeatC {α : Type} (f : Store → Option (α × Store)) : Nat → Store → Option (List α × Store)
+  | 0, s => some ([], s)
+  | n + 1, s =>
+    match f s with
+    | none => none
+    | some (x, s1) =>
+      match repeatC f n s1 with
+      | none => none
+      | some (xs, s2) => some (x :: xs, s2)
+
+mutual
+/-- `deserializer::deserialize<T>()` over a `deserialize_buffer_storage`, cursor and all -/
+def decodeC : Ty → Store → Option (Val × Store)
+  | .sc k, s =>
+    match s.load k.width with
+    | some (bs, s1) => some (.sc (leVal bs), s1)
+    | none => none
+  | .vec t, s =>
+    match s.load 2 with
+    | none => none
+    | some (bs, s1) =>
+      match repeatC (decodeC t) (leVal bs) s1 with
+      | some (xs, s2) => some (.list xs, s2)
+      | none => none
+  | .struct fs, s =>
+    match decodeFieldsC fs s with
+    | some (xs, s1) => some (.list xs, s1)
+    | none => none
+  | _, s => some (default, s)
+def decodeFieldsC : List Ty → Store → Option (List Val × Store)
+  | [], s => some ([], s)
+  | t :: ts, s =>
+    match decodeC t s with
+    | none => none
+    | some (x, s1) =>
+      match decodeFieldsC ts s1 with
+      | some (xs, s2) => some (x :: xs, s2)
+      | none => none
+end
+
 end Igris.C09
